@@ -7,7 +7,7 @@
 \*   all action names      = one behaviour per (state, action) transition
 \* With -simulate, EMITACTS = {"end"} prints each random history once, at length MAXHIST.
 CONSTANTS
-  IPs = {"a"}
+  IPs = @@IPS@@
   Procs = @@PROCS@@
   Threshold = @@THR@@
   PermAt = @@PERMAT@@
